@@ -91,8 +91,11 @@ Lemma descend_idle_sk : forall f s i w, In w (descend_idle f s i) -> exists j, I
 Proof.
   induction f as [|f IH]; intros s i w Hin; cbn [descend_idle] in Hin; [destruct Hin|].
   destruct (v_isync (get_inv s i)) as [|w0 tl] eqn:E.
-  - apply in_flat_map in Hin. destruct Hin as [c [Hc Hin]]. apply minimal_sound in Hc. destruct Hc as [Hc _].
-    destruct (IH _ _ _ Hin) as [j [A B]]. exists j. split; [exact A|]. rewrite B. eapply idle_sync_children_sk. exact Hc.
+  - cbv zeta in Hin. apply in_flat_map in Hin. destruct Hin as [c [Hc Hin]].
+    assert (Hc' : In c (idle_sync_children s i)).
+    { destruct (minimal (ichildren_less s) (idle_sync_children s i)) eqn:Em; [exact Hc|].
+      rewrite <- Em in Hc. apply minimal_sound in Hc. exact (proj1 Hc). }
+    destruct (IH _ _ _ Hin) as [j [A B]]. exists j. split; [exact A|]. rewrite B. eapply idle_sync_children_sk. exact Hc'.
   - destruct Hin as [<-|[]]. exists i. rewrite E. split; [left; reflexivity|reflexivity].
 Qed.
 
